@@ -34,6 +34,9 @@ def param_call(callee: Callee, arg: Any = Default, **kwargs: Dict) -> "Callee.Pa
     if arg is not Default:
         # Already constructed. Return as-is.
         # Note type-checking for instances of `callee.Params` *is not* done here.
+        if isinstance(arg, dict):
+            # Except for `dict`-valued parameters, which the caller may go on editing (and hand to the next call).
+            return dict(arg)
         return arg
 
     try:
